@@ -26,10 +26,11 @@ func TestMain(m *testing.M) { common.Main(m) }
 var errInjected = errors.New("injected I/O error")
 
 type Fault struct {
-	Kind    string `json:"kind"`    // simfs.Kind
-	Sel     int    `json:"sel"`     // ordinal selector, resolved modulo the number of such calls in a fault-free run
-	Mode    string `json:"mode"`    // transient, persistent
-	Partial int    `json:"partial"` // WriteAt: bytes applied before failing (0 = none)
+	Kind    string `json:"kind"`         // simfs.Kind
+	Sel     int    `json:"sel"`          // ordinal selector, resolved modulo the number of such calls in a fault-free run
+	Mode    string `json:"mode"`         // transient, persistent
+	Partial int    `json:"partial"`      // WriteAt: bytes applied before failing (0 = none)
+	Op      int    `json:"op,omitempty"` // i>0: Sel counts only the calls made during op #i-1 (falls back to the whole run if that op makes none)
 }
 
 type FOp struct {
@@ -50,6 +51,9 @@ var faultKinds = []simfs.Kind{simfs.KWriteAt, simfs.KWriteAt, simfs.KSyncFile, s
 	simfs.KCommitState, simfs.KCommitState, simfs.KSetStable, simfs.KListDir, simfs.KOpenReader, simfs.KOpenWriter, simfs.KLoad}
 
 func genCase(t *rapid.T) Case {
+	if rapid.IntRange(0, 99).Draw(t, "template") < 35 {
+		return genTruncCase(t)
+	}
 	c := Case{SegSize: rapid.SampledFrom([]int{1, 64, 128, 256, 512}).Draw(t, "seg")}
 	n := rapid.IntRange(3, 14).Draw(t, "nops")
 	for i := 0; i < n; i++ {
@@ -84,6 +88,49 @@ func genCase(t *rapid.T) Case {
 		}
 		c.Faults = append(c.Faults, f)
 	}
+	return c
+}
+
+// genTruncCase aims the fault at a truncation: a few small appends into one
+// roomy tail segment, a DeleteRange (mostly a tail truncation ending inside the
+// tail, which force-seals it), the same call retried, more appends, reopens -
+// with the fault placed on one of the I/O calls of that DeleteRange itself.
+func genTruncCase(t *rapid.T) Case {
+	c := Case{SegSize: rapid.SampledFrom([]int{256, 512, 4096}).Draw(t, "seg")}
+	app := func() FOp {
+		op := FOp{K: "append", Start: rapid.SampledFrom([]uint64{1, 1, 100}).Draw(t, "start")}
+		for j, m := 0, rapid.IntRange(1, 3).Draw(t, "n"); j < m; j++ {
+			op.Entries = append(op.Entries, kit.EntrySpec{DataLen: rapid.SampledFrom([]int{0, 5, 30, 80}).Draw(t, "dl"), Seed: uint8(rapid.IntRange(0, 255).Draw(t, "seed"))})
+		}
+		return op
+	}
+	for i, n := 0, rapid.IntRange(1, 4).Draw(t, "pre"); i < n; i++ {
+		c.Ops = append(c.Ops, app())
+	}
+	if rapid.IntRange(0, 3).Draw(t, "preReopen") == 0 {
+		c.Ops = append(c.Ops, FOp{K: "reopen"})
+	}
+	target := len(c.Ops)
+	c.Ops = append(c.Ops, FOp{K: "del", Rel: rapid.SampledFrom([]string{"tail", "tail", "tail", "head", "all"}).Draw(t, "rel"), A: rapid.IntRange(0, 2).Draw(t, "a")})
+	if rapid.IntRange(0, 3).Draw(t, "doRetry") > 0 {
+		c.Ops = append(c.Ops, FOp{K: "retry"})
+	}
+	for i, n := 0, rapid.IntRange(0, 3).Draw(t, "post"); i < n; i++ {
+		switch rapid.IntRange(0, 5).Draw(t, "postk") {
+		case 0:
+			c.Ops = append(c.Ops, FOp{K: "reopen"})
+		case 1:
+			c.Ops = append(c.Ops, FOp{K: "del", Rel: rapid.SampledFrom([]string{"tail", "head"}).Draw(t, "rel2"), A: rapid.IntRange(0, 2).Draw(t, "a2")})
+		default:
+			c.Ops = append(c.Ops, app())
+		}
+	}
+	f := Fault{Kind: string(rapid.SampledFrom([]simfs.Kind{simfs.KWriteAt, simfs.KSyncFile, simfs.KSyncFile, simfs.KCommitState, simfs.KCreate, simfs.KSyncDir, simfs.KUnlink}).Draw(t, "fkind")),
+		Sel: rapid.IntRange(0, 7).Draw(t, "fsel"), Mode: rapid.SampledFrom([]string{"transient", "transient", "transient", "persistent"}).Draw(t, "fmode"), Op: target + 1}
+	if f.Kind == string(simfs.KWriteAt) {
+		f.Partial = rapid.SampledFrom([]int{0, 0, 8, 16, 1000}).Draw(t, "partial")
+	}
+	c.Faults = []Fault{f}
 	return c
 }
 
@@ -228,7 +275,9 @@ type env struct {
 	lastMin        uint64
 	lastMax        uint64
 	cls            map[string]bool
+	opCounts       []map[simfs.Kind]int // fault-free pass: calls per kind made before op #i (one more entry for the end)
 	ledger         *common.Failure
+	format         *common.Failure // C09 along failure paths
 }
 
 func (e *env) open() error {
@@ -355,6 +404,9 @@ func (e *env) run(in *injector) *common.Failure {
 		return common.Failf(sig, "step %d: after reopen the WAL holds [%d,%d]; in-process model was [%d,%d]; %d allowed states, none matches (%s); history since last open: %s; lingering failed appends: %s", step, f, l, e.m.First, e.m.Last, len(cands), firstMsg, descHist(e.hist), descHist(e.linger))
 	}
 	for i, op := range e.c.Ops {
+		if in == nil {
+			e.opCounts = append(e.opCounts, e.fs.Counts())
+		}
 		if e.w == nil && op.K != "reopen" {
 			// no usable instance (Open failed): only reopen makes sense
 			if f := reopen(i); f != nil {
@@ -459,6 +511,8 @@ func (e *env) run(in *injector) *common.Failure {
 	// final: clear faults, close (errors tolerated), reopen
 	if in != nil {
 		in.heal()
+	} else {
+		e.opCounts = append(e.opCounts, e.fs.Counts())
 	}
 	if f := reopen(len(e.c.Ops)); f != nil {
 		return f
@@ -477,6 +531,7 @@ func (e *env) run(in *injector) *common.Failure {
 	}
 	e.w.Close()
 	e.w = nil
+	e.format = formatVerdict(e.fs, e.m)
 	// C13 ledger: creating a segment must never collide with an existing file,
 	// nor re-use an ID that was retired from the metadata
 	if len(e.fs.CreateDup) > 0 {
@@ -549,12 +604,21 @@ func runCaseFor(c Case, prop string) (res common.Result) {
 	}
 	counts := dry.fs.Counts()
 	in := &injector{}
+	aimed := false
 	for _, f := range c.Faults {
 		n := counts[simfs.Kind(f.Kind)]
 		if n == 0 {
 			continue
 		}
-		in.plan = append(in.plan, resolved{kind: simfs.Kind(f.Kind), ord: 1 + f.Sel%n, mode: f.Mode, partial: f.Partial})
+		ord := 1 + f.Sel%n
+		if i := f.Op - 1; i >= 0 && i+1 < len(dry.opCounts) {
+			lo, hi := dry.opCounts[i][simfs.Kind(f.Kind)], dry.opCounts[i+1][simfs.Kind(f.Kind)]
+			if hi > lo {
+				ord = lo + 1 + f.Sel%(hi-lo)
+				aimed = true
+			}
+		}
+		in.plan = append(in.plan, resolved{kind: simfs.Kind(f.Kind), ord: ord, mode: f.Mode, partial: f.Partial})
 	}
 	if len(in.plan) == 0 {
 		return
@@ -571,6 +635,8 @@ func runCaseFor(c Case, prop string) (res common.Result) {
 			e.ledger = common.Failf("create-collision", "Create was called on an existing file name: %v", e.fs.CreateDup)
 		}
 		res.Fail = e.ledger
+	} else if prop == "C09" {
+		res.Fail = e.format
 	} else {
 		res.Fail = f
 	}
@@ -583,6 +649,8 @@ func runCaseFor(c Case, prop string) (res common.Result) {
 	}
 	if in.hits == 0 {
 		res.Classes = append(res.Classes, "fault-not-hit")
+	} else if aimed {
+		res.Classes = append(res.Classes, "fault-aimed-at-truncation")
 	}
 	return
 }
@@ -595,4 +663,10 @@ func TestC10Faults(t *testing.T) {
 // identity ledger (C13): no Create on an existing name, no retired ID re-used.
 func TestC13Faults(t *testing.T) {
 	common.Run(t, "C13", "C13Faults", genCase, func(c Case) common.Result { return runCaseFor(c, "C13") })
+}
+
+// TestC09Faults runs the same fault histories and judges only the files left
+// behind against the README decoder (see formatVerdict).
+func TestC09Faults(t *testing.T) {
+	common.Run(t, "C09", "C09Faults", genCase, func(c Case) common.Result { return runCaseFor(c, "C09") })
 }
